@@ -31,6 +31,15 @@ Proof.
 Qed.
 Print Assumptions c14_total.
 
+(* InflateMessage does not depend on any earlier decode by the same object: the only member that
+   survives a call and is read again is m_variable_field_size (`prev`), and its old value never
+   influences the result -- for EVERY descriptor and payload, no hypothesis.  (That the C++ object
+   carries no other state, e.g. per-descriptor caches, is validated by the harness: a long-lived
+   deserializer is used across a delete/reload of the PID store.) *)
+Theorem c14_inflate_stateless : forall prev prev' fs bs, inflate prev fs bs = inflate prev' fs bs.
+Proof. exact inflate_stateless. Qed.
+Print Assumptions c14_inflate_stateless.
+
 (* Acceptance depends on the payload LENGTH only. *)
 Theorem c14_rejects_by_length : forall prev fs bs,
   wf_desc fs = true -> bytes_ok bs = true -> len bs < 2^32 ->
